@@ -14,6 +14,7 @@ class C08(Oracle):
         self.decisions = []    # decisions of the current B-event: (node, chosen id)
         self.rich = 0
         self.cc_expected = None
+        self.slot_before = None
         R.hooks.decision_cbs.append(self.on_decision)
 
     def domain(self, node_id):
@@ -33,6 +34,9 @@ class C08(Oracle):
         R = self.R
         self.decisions = []
         self.cc_expected = None
+        self.slot_before = None
+        if R.ev_type == "slotted_service" and not self.has_servers(R.ev_nid):
+            self.slot_before = (R.ev_nid, set(i.id_number for i in R.inds(node) if i.server))
         if R.ev_type == "class_change" and self.domain(R.ev_nid):
             # among waiting customers whose class change is due now, the one standing first in the queue changes first
             best = None
@@ -49,6 +53,15 @@ class C08(Oracle):
                 if best is not None:
                     break
             self.cc_expected = best
+
+    def after(self, node, nxt):
+        # at a slotted node a service that was not in progress (or interrupted) before the slot starts only by a decision of the discipline
+        if self.slot_before is not None:
+            nid, had = self.slot_before
+            chosen = set(c for n, c in self.decisions if n == nid)
+            for i in self.R.inds(self.R.sim.transitive_nodes[nid - 1]):
+                if i.server and i.id_number not in had and i.id_number not in chosen:
+                    self.fail("service-start-without-decision", "ind %s started at slotted node %s at %r but the discipline did not choose it" % (i.id_number, nid, self.R.t))
 
     def micro(self, ev):
         k = ev[2]
